@@ -39,7 +39,17 @@ fn gen_cases(rng: &mut Rng, tier: Tier) -> Vec<Value> {
                 cfg.vehicles_per_type = (3, 4);
                 cfg.time_windows = false;
             }
+            // two problems in five ask for vicinity clustering: cluster jobs are expanded into their members again by a post
+            // processing step that has to run whenever a solution is returned, interrupted or not (judged by partition only)
+            let clustered = i % 5 == 4 || i % 5 == 2;
+            if clustered {
+                cfg.multi_jobs = false;
+                cfg.jobs = (8, 14);
+            }
             let mut sp = gen_problem(rng, &cfg);
+            if clustered {
+                sp.clustering = Some(gen_clustering(rng, &sp));
+            }
             if i % 3 == 1 {
                 // capacity for about three quarters of the total delivery demand
                 let total: i64 = sp.jobs.iter().flat_map(|j| j.tasks.iter()).filter_map(|t| t.demand.first().copied()).sum();
